@@ -210,6 +210,8 @@ pub struct Out {
     pub n: usize,
     samples: Vec<String>,
     distinct: std::collections::HashSet<u64>,
+    pub pending: Vec<(String, String, String, bool)>,
+    collect_only: bool,
 }
 
 fn fnv(s: &str) -> u64 {
@@ -232,7 +234,15 @@ impl Out {
             n: 0,
             samples: Vec::new(),
             distinct: std::collections::HashSet::new(),
+            pending: Vec::new(),
+            collect_only: false,
         }
+    }
+    // a collector whose cases are moved into the real output with `absorb` once the producing code returned normally
+    pub fn collector(prop: &str) -> Out {
+        let mut o = Out::new(prop, 1);
+        o.collect_only = true;
+        o
     }
     pub fn stat(&mut self, key: &str) {
         *self.stats.entry(key.to_string()).or_insert(0) += 1;
@@ -243,6 +253,11 @@ impl Out {
     // `term` is a Coq term of the property's case type; `json` a JSON object (without id) describing it;
     // `nontrivial` says whether the case exercises more than a degenerate path (by the property's stated rule)
     pub fn case(&mut self, kind: &str, term: String, json: String, nontrivial: bool) {
+        if self.collect_only {
+            // temporary collector (see `absorb`): keep the case, do not number it
+            self.pending.push((kind.to_string(), term, json, nontrivial));
+            return;
+        }
         let id = self.n;
         self.n += 1;
         let sh = id % self.shards.len();
@@ -265,6 +280,17 @@ impl Out {
                 t.push_str("...");
             }
             self.samples.push(format!("{{\"kind\":\"{}\",\"term\":{:?}}}", kind, t));
+        }
+    }
+    // move the cases recorded in a temporary collector into this one
+    pub fn absorb(&mut self, other: Out) {
+        for (k, v) in other.stats.iter() {
+            if !k.starts_with("kind.") && k != "distinct_nontrivial" {
+                self.stat_n(k, *v);
+            }
+        }
+        for p in other.pending {
+            self.case(&p.0, p.1, p.2, p.3);
         }
     }
     pub fn finish(&self, outdir: &str, variant: &str) {
